@@ -137,6 +137,9 @@ class CarbonClientProtocol(object):
         instrumentation.prior_stats.get('metricsReceived', 0)))
 
     self.sendDatapointsNow(self.factory.takeSomeFromQueue())
+    # compare what is left after this send with the low watermark: when this
+    # batch emptied the queue there will be no later send to notice it
+    queueSize = self.factory.queueSize
     if (self.factory.queueFull.called and queueSize < SEND_QUEUE_LOW_WATERMARK):
       if not self.factory.queueHasSpace.called:
         self.factory.queueHasSpace.callback(queueSize)
